@@ -380,7 +380,8 @@ Definition hostname_like (s : str) : bool :=
   is_ascii_str s && negb (forallb numeric_alphabet s).
 
 Definition is_valid_ip (s : str) : option bool :=
-  if is_nil s || memN 0 s then Some false
+  (* `not ip or NUL in ip or not ip.isascii()` *)
+  if is_nil s || memN 0 s || negb (is_ascii_str s) then Some false
   else if plain_ipv4 s || plain_ipv6 s then Some true
   else if hostname_like s then Some false
   else None.
